@@ -44,14 +44,14 @@ def items(tier):
     tri = (None, 0.0, 1.0)
     for fsk, wfs in itertools.product(tri, repeat=2):
         for target in (False, True):
-            for fixf in (None, [], ["F0"], ["F1"]):
+            for fixf, fixw in ((None, None), ([], None), (["F0"], None), (["F1"], None), (None, ["W1"]), (["F1"], ["W0"]), (None, [])):
                 for solof in (False, True):
                     f0 = {"name": "F0", "skills": ({} if fsk is None else {"T0": fsk}), "solo": solof, "cost": 1.0}
                     f1 = {"name": "F1", "skills": {"T0": 1.0}, "cost": 1.0}
                     w0 = {"name": "W0", "skills": {"T0": 1.0}, "fskills": ({"F1": 1.0} if wfs is None else {"F0": wfs, "F1": 1.0}), "cost": 1.0}
                     w1 = {"name": "W1", "skills": {"T0": 1.0}, "fskills": {"F0": 1.0}, "cost": 1.0}
                     sp = {
-                        "tasks": [{"name": "T0", "work": 4.0, "nf": True, "fixf": fixf}],
+                        "tasks": [{"name": "T0", "work": 4.0, "nf": True, "fixf": fixf, "fixw": fixw}],
                         "links": [],
                         "components": [{"name": "C0", "tasks": [0]}],
                         "workplaces": [
